@@ -5,6 +5,7 @@
      7 kind flags U  limD_0..limD_{U-1}  limL_0..limL_{U-1}  op*
        kind   0 mocknet hosts | 1 tcp+noise+yamux hosts (informative)
        flags  bit0: real resource managers (scope columns meaningful)
+              bit1: the connection between the hosts is a limited (relayed) one
        U      size of the protocol universe; protocol IDs are 0..U-1
        limD_p / limL_p  outbound (dialer) / inbound (listener) stream limit of
                         protocol p's scope; -1 = unlimited
@@ -13,7 +14,8 @@
        2 name m a_1..a_m         SetStreamHandlerMatch, accepted set a   obs MUX
        3 name                    RemoveStreamHandler                     obs MUX
        4 m p_1..p_m              dialer peerstore SetProtocols(listener) obs KNOW
-       5 n (m r_1..r_m)^n        n concurrent NewStream(r) + first use
+       5 n (mode m r_1..r_m)^n   n concurrent NewStream(r) + first use; mode bit0: the
+                                 context allows limited connections
             obs (res dp use h lp ninv hreg hlp)^n  u (reg lp)^u  KNOW SCOPE
        6 slot how                close/reset both ends of held stream    obs SCOPE
      MUX   = k p_1..p_k   listener Mux().Protocols() within the universe, in order
@@ -122,7 +124,7 @@ Definition mon_step (U : Z) (has_scope : bool) (lim_in : Z -> Z) (m : mon) (o : 
       Some (mkM (live_remove (m_live m) name) (m_nreg m) (m_kn m) (m_sc m))
   | OKnow k, _ => Some (mkM (m_live m) (m_nreg m) k (m_sc m))
   | OBatch opens, ObBatch rs un kn' sc' =>
-      if batch_ok U has_scope lim_in m (map (fun x => fst (fst x)) opens) rs un sc'
+      if batch_ok U has_scope lim_in m (map q_reqs opens) rs un sc'
       then Some (mkM (m_live m) (m_nreg m) kn' (if has_scope then sc' else m_sc m))
       else None
   | OClose _ _, ObClose sc' =>
@@ -152,17 +154,21 @@ Definition take_list (l : list Z) : option (list Z * list Z) :=
   | [] => None
   end.
 
-Fixpoint take_reqs (n : nat) (l : list Z) : option (list (list Z) * list Z) :=
+Fixpoint take_reqs (n : nat) (l : list Z) : option (list oreq * list Z) :=
   match n with
   | O => Some ([], l)
   | S k =>
-      match take_list l with
-      | Some (q, r) =>
-          match take_reqs k r with
-          | Some (qs, r') => Some (q :: qs, r')
+      match l with
+      | mode :: l' =>
+          match take_list l' with
+          | Some (q, r) =>
+              match take_reqs k r with
+              | Some (qs, r') => Some (mkReq q [] false (Z.testbit mode 0) :: qs, r')
+              | None => None
+              end
           | None => None
           end
-      | None => None
+      | [] => None
       end
   end.
 
@@ -196,9 +202,6 @@ Fixpoint take_pairs (n : nat) (l : list Z) : option (list (Z * Z) * list Z) :=
 
 Definition take_n (n : Z) (l : list Z) : option (list Z * list Z) :=
   if (0 <=? n) && (n <=? zlen l) then Some (ztake n l, zdrop n l) else None.
-
-Definition no_hint (qs : list (list Z)) : list (list Z * list Z * bool) :=
-  map (fun q => (q, [], false)) qs.
 
 Fixpoint decode_ops (U : Z) (l : list Z) (fuel : nat) : option (list (op * obs)) :=
   match fuel with
@@ -249,7 +252,7 @@ Fixpoint decode_ops (U : Z) (l : list Z) (fuel : nat) : option (list (op * obs))
                         | Some (kn, r4) =>
                             match take_n (2 * U) r4 with
                             | Some (sc, r5) =>
-                                option_map (cons (OBatch (no_hint qs), ObBatch rs un kn sc))
+                                option_map (cons (OBatch qs, ObBatch rs un kn sc))
                                            (decode_ops U r5 f)
                             | None => None
                             end
@@ -286,7 +289,7 @@ Definition decode_case (l : list Z) : option (header * list (op * obs)) :=
           match take_n U r1 with
           | Some (ll, r2) =>
               match decode_ops U r2 (S (length r2)) with
-              | Some tr => Some (mkHd (Z.testbit flags 0) U (mkCfg (vecfn ld) (vecfn ll)), tr)
+              | Some tr => Some (mkHd (Z.testbit flags 0) U (mkCfg (vecfn ld) (vecfn ll) (Z.testbit flags 1)), tr)
               | None => None
               end
           | None => None
@@ -322,24 +325,24 @@ Definition hints (reqs : list Z) (rs : list ores) : list (list Z * bool) :=
                          (map o_dp (filter (fun r => o_res r =? 0) rs))) in
   flat_map (fun s => [(s, false); (s, true)]) (sublists e).
 
-Fixpoint first_match (c : cfg) (t : table) (kn : list Z) (b : bst) (reqs : list Z) (r : ores)
+Fixpoint first_match (c : cfg) (t : table) (kn : list Z) (b : bst) (q : oreq) (r : ores)
          (cands : list (list Z * bool)) : option (bst * (list Z * bool)) :=
   match cands with
   | [] => None
   | (e, rc) :: rest =>
-      let '(b', o) := open1 ms_select_impl ms_lazy_impl c t kn b reqs e rc in
-      if ores_eqb o r then Some (b', (e, rc)) else first_match c t kn b reqs r rest
+      let '(b', o) := open1 ms_select_impl ms_lazy_impl c t kn b (q_reqs q) e rc (q_allow q) in
+      if ores_eqb o r then Some (b', (e, rc)) else first_match c t kn b q r rest
   end.
 
 Fixpoint find_hints (c : cfg) (t : table) (kn : list Z) (b : bst) (all : list ores)
-         (qs : list (list Z)) (rs : list ores) : list (list Z * list Z * bool) :=
+         (qs : list oreq) (rs : list ores) : list oreq :=
   match qs, rs with
   | q :: qs', r :: rs' =>
-      match first_match c t kn b q r (hints q all) with
-      | Some (b', (e, rc)) => (q, e, rc) :: find_hints c t kn b' all qs' rs'
-      | None => (q, [], false) :: find_hints c t kn b all qs' rs'
+      match first_match c t kn b q r (hints (q_reqs q) all) with
+      | Some (b', (e, rc)) => mkReq (q_reqs q) e rc (q_allow q) :: find_hints c t kn b' all qs' rs'
+      | None => q :: find_hints c t kn b all qs' rs'
       end
-  | q :: qs', [] => (q, [], false) :: find_hints c t kn b all qs' []
+  | q :: qs', [] => q :: find_hints c t kn b all qs' []
   | [], _ => []
   end.
 
@@ -382,8 +385,7 @@ Fixpoint conform_run (h : header) (s : st) (i : Z) (tr : list (op * obs)) : list
         match o, x with
         | OBatch opens, ObBatch rs _ _ _ =>
             OBatch (find_hints (hd_cfg h) (tbl s) (know s)
-                               (mkB (outD s) (inL s) [] (held s) (nslot s)) rs
-                               (map (fun y => fst (fst y)) opens) rs)
+                               (mkB (outD s) (inL s) [] (held s) (nslot s)) rs opens rs)
         | _, _ => o
         end in
       let '(s', mx) := step_i (hd_U h) (hd_cfg h) s o' in
